@@ -106,11 +106,16 @@ type recWriter struct {
 	writes []int
 	failAt int // fail at the n-th Write call (1-based); 0 = never
 	err    error
+	short  int // when failing: accept this many bytes first (short write)
 }
 
 func (w *recWriter) Write(p []byte) (int, error) {
 	w.writes = append(w.writes, len(p))
 	if w.failAt > 0 && len(w.writes) >= w.failAt {
+		if w.short > 0 && len(p) > w.short {
+			w.buf.Write(p[:w.short])
+			return w.short, w.err
+		}
 		return 0, w.err
 	}
 	return w.buf.Write(p)
